@@ -381,8 +381,13 @@ func GenCase(p *Profile) *rapid.Generator[Case] {
 			c.Cfg.NameSet = len(NameSets) - 1
 		}
 		curNameSet = c.Cfg.NameSet
-		if p.Framed > 0 && uni(t, 100, "framed") < p.Framed {
-			c.Cfg.Framed = true
+		if p.Framed > 0 {
+			switch r := uni(t, 100, "framed"); {
+			case r < p.Framed:
+				c.Cfg.Framed = true
+			case r < p.Framed+p.Framed/2:
+				c.Cfg.Masked = true
+			}
 		}
 		if p.Stores > 0 {
 			c.Cfg.Stores = rapid.IntRange(0, p.Stores).Draw(t, "stores")
